@@ -18,6 +18,9 @@ SUB, PFX = "REFACTOR", "a"
 if len(sys.argv) > 2 and sys.argv[1] == "--round3":
     SUB, PFX = "REFACTOR3", "b"
     del sys.argv[1]
+if len(sys.argv) > 2 and sys.argv[1] == "--round4":
+    SUB, PFX = "REFACTOR4", "c"
+    del sys.argv[1]
 for n in sys.argv[1:]:
     base = "/tmp/seed2-C%02d/%s" % (int(n), SUB)
     for k in sorted(os.listdir(base)):
